@@ -533,6 +533,20 @@ def embedded_leaf(tu):
         raise AnalysisError("anchor vanished: BTree_getstate has no embedded-leaf branch")
     facts["embed_atoms"] = sorted(embed)
     facts["mark_atoms"] = sorted(mark or [])
+    # 4. the embedded form is sound for the root only: below the root the leaf is
+    # also referenced by its predecessor's `next` (or an ancestor's firstbucket);
+    # a guard made of (one child, child is a leaf, leaf has no oid) holds for an
+    # interior node as well
+    if embed <= {"child-is-leaf", "len==1", "oid==NULL"}:
+        findings.append(dict(
+            rule="EMBEDDED-LEAF", function="BTree_getstate", file=gs.f,
+            line=int(facts["embed_site"].split(":")[1]),
+            construct="embedded form not restricted to the root",
+            detail="the single leaf is written inline under (%s) - conditions an interior "
+                   "node with one child satisfies too; there the leaf is also referenced by "
+                   "its predecessor's next pointer, gets an oid when that predecessor is "
+                   "written later in the same commit and is stored twice: after a reload the "
+                   "tree has two copies of the leaf" % ", ".join(sorted(embed)), path=[]))
     if mark is not None:
         need = set(a for a in mark if not a.startswith("flag:"))
         other = [a for a in need if a.startswith("other:")]
